@@ -103,6 +103,7 @@ type genModel struct {
 	pods    map[string]bool
 	nodes   map[string]string // node -> pod
 	wl      map[string]Step   // id -> AddWorkload step that created it
+	gone    map[string]Step   // id -> AddWorkload step of a workload that was removed since
 	markers map[string]bool
 }
 
@@ -159,6 +160,21 @@ func genC23(t *rapid.T) Case23 {
 		st := genStep(t, m)
 		m.apply(st)
 		c.Steps = append(c.Steps, st)
+	}
+	// sometimes a workload's whole life ends the history: status reported, removed, and the same
+	// workload (id, names, node) recorded again — anything the removal left behind shows in the read-back
+	if ids := keysOf(m.wl); len(ids) > 0 && vt.Chance(t, "lifeCycleTail", 25) {
+		old := m.wl[pick(t, "tailID", ids)]
+		tail := []Step{
+			{Op: opSetWorkloadStatus, ID: old.ID, App: old.App, Entry: old.Entry, Node: old.Node, Flag: true, Val: pick(t, "ext", []string{"", "x"})},
+			{Op: opRemoveWorkload, ID: old.ID},
+			{Op: opAddWorkload, ID: old.ID, App: old.App, Entry: old.Entry, Ident: old.Ident, Node: old.Node, Pod: old.Pod, Labels: old.Labels, Val: old.Val},
+			{Op: opGetWorkloads, IDs: []string{old.ID}},
+		}
+		for _, st := range tail {
+			m.apply(st)
+			c.Steps = append(c.Steps, st)
+		}
 	}
 	return c
 }
@@ -242,6 +258,14 @@ func genStep(t *rapid.T, m *genModel) Step {
 		st.Ident = pick(t, "suffix", []string{"aaaaaa", "bbbbbb"})
 		st.Labels = genLabels(t)
 		st.Val = pick(t, "user", []string{"", "root"})
+		// the same workload coming back (same id, names and node) after it was removed: whatever the
+		// removal left behind under those names would show now
+		if len(m.gone) > 0 && vt.Chance(t, "comeBack", 35) {
+			old := m.gone[pick(t, "goneID", keysOf(m.gone))]
+			if _, live := m.wl[old.ID]; !live {
+				st.ID, st.App, st.Entry, st.Ident, st.Node, st.Pod = old.ID, old.App, old.Entry, old.Ident, old.Node, old.Pod
+			}
+		} else
 		// a pending marker somewhere: usually deploy "under" it, as calcium does
 		if len(m.markers) > 0 && vt.Chance(t, "useMarker", 60) {
 			p := strings.Split(pick(t, "marker", keysOf(m.markers)), "|")
@@ -358,6 +382,12 @@ func (m *genModel) apply(st Step) {
 			m.wl[st.ID] = st
 		}
 	case opRemoveWorkload:
+		if old, ok := m.wl[st.ID]; ok {
+			if m.gone == nil {
+				m.gone = map[string]Step{}
+			}
+			m.gone[st.ID] = old
+		}
 		delete(m.wl, st.ID)
 	case opCreateProcessing:
 		m.markers[markerKey(st.App, st.Entry, st.Node, st.Ident)] = true
